@@ -143,6 +143,119 @@ func firstWords(s string) string {
 type SCase struct {
 	Dialect string    `json:"dialect"`
 	S       gm.Schema `json:"s"`
+	// Twin (mysql, postgres): the document is a realm of two schemas; the second one ("crm") holds a copy of the tables
+	// named here, and every foreign key of those copies that points at a table of this list keeps pointing into the
+	// FIRST schema (a foreign key to a same-named table of another schema).
+	Twin []string `json:"twin,omitempty"`
+}
+
+// realmOf builds the two-schema realm of a Twin case.
+func realmOf(c SCase) (*schema.Realm, error) {
+	s0, err := gm.Build(c.Dialect, c.S)
+	if err != nil {
+		return nil, err
+	}
+	s1, err := gm.Build(c.Dialect, c.S)
+	if err != nil {
+		return nil, err
+	}
+	s1.Name = "crm"
+	keep := map[string]bool{}
+	for _, n := range c.Twin {
+		keep[n] = true
+	}
+	var ts []*schema.Table
+	for _, t := range s1.Tables {
+		if !keep[t.Name] {
+			continue
+		}
+		var fks []*schema.ForeignKey
+		for _, fk := range t.ForeignKeys {
+			if !keep[fk.RefTable.Name] {
+				continue // its parent has no copy
+			}
+			if fk.RefTable != t {
+				o, ok := s0.Table(fk.RefTable.Name)
+				if !ok {
+					return nil, fmt.Errorf("harness: twin parent %s", fk.RefTable.Name)
+				}
+				fk.RefTable = o
+				for i, rc := range fk.RefColumns {
+					fk.RefColumns[i], _ = o.Column(rc.Name)
+				}
+			}
+			fks = append(fks, fk)
+		}
+		t.ForeignKeys = fks
+		ts = append(ts, t)
+	}
+	s1.Tables = ts
+	s1.Objects = nil
+	for _, t := range ts {
+		for _, col := range t.Columns {
+			if e, ok := col.Type.Type.(*schema.EnumType); ok && e.Schema == s1 {
+				s1.Objects = append(s1.Objects, e)
+			}
+		}
+	}
+	return schema.NewRealm(s0, s1), nil
+}
+
+// fkTargets lists every foreign key of a realm with the schema-qualified table it points at.
+func fkTargets(r *schema.Realm) string {
+	var out []string
+	for _, s := range r.Schemas {
+		for _, t := range s.Tables {
+			for _, fk := range t.ForeignKeys {
+				rs := "?"
+				if fk.RefTable != nil && fk.RefTable.Schema != nil {
+					rs = fk.RefTable.Schema.Name
+				}
+				out = append(out, fmt.Sprintf("%s.%s.%s->%s.%s", s.Name, t.Name, fk.Symbol, rs, fk.RefTable.Name))
+			}
+		}
+	}
+	sort.Strings(out)
+	return strings.Join(out, " ")
+}
+
+func checkRealm(c SCase) error {
+	r0, err := realmOf(c)
+	if err != nil {
+		return fmt.Errorf("harness: %v", err)
+	}
+	h1, err := gm.MarshalHCL(c.Dialect, r0)
+	if err != nil {
+		return fmt.Errorf("%s: MarshalHCL(realm) failed: %v", c.Dialect, err)
+	}
+	r1, err := gm.EvalHCL(c.Dialect, h1)
+	if err != nil {
+		return fmt.Errorf("%s: the marshalled realm does not evaluate: %v\n%s", c.Dialect, err, h1)
+	}
+	if a, b := fkTargets(r0), fkTargets(r1); a != b {
+		return fmt.Errorf("%s: foreign keys point elsewhere after the HCL round trip of a two-schema realm\n original:  %s\n evaluated: %s\nHCL:\n%s", c.Dialect, a, b, h1)
+	}
+	differ := gm.Differ(c.Dialect)
+	fresh := func() *schema.Realm { r, _ := realmOf(c); return r }
+	evald := func() *schema.Realm { r, _ := gm.EvalHCL(c.Dialect, h1); return r }
+	if ch, err := differ.RealmDiff(fresh(), evald(), schema.DiffNormalized()); err != nil {
+		return fmt.Errorf("%s: diff(original realm, evaluated) failed: %v\n%s", c.Dialect, err, h1)
+	} else if len(ch) > 0 {
+		return fmt.Errorf("%s: diff(original realm, EvalHCL(MarshalHCL(original))) is not empty: %s\nHCL:\n%s", c.Dialect, describe(ch), h1)
+	}
+	if ch, err := differ.RealmDiff(evald(), fresh(), schema.DiffNormalized()); err != nil {
+		return fmt.Errorf("%s: diff(evaluated, original realm) failed: %v\n%s", c.Dialect, err, h1)
+	} else if len(ch) > 0 {
+		return fmt.Errorf("%s: diff(EvalHCL(MarshalHCL(original realm)), original) is not empty: %s\nHCL:\n%s", c.Dialect, describe(ch), h1)
+	}
+	h2, err := gm.MarshalHCL(c.Dialect, r1)
+	if err != nil {
+		return fmt.Errorf("%s: MarshalHCL of the evaluated realm failed: %v", c.Dialect, err)
+	}
+	if !bytes.Equal(h1, h2) {
+		return fmt.Errorf("%s: marshalling the evaluated realm again gives different bytes:\n%s\n--- second:\n%s", c.Dialect, h1, h2)
+	}
+	return nil
 }
 
 func describe(cs []schema.Change) string {
@@ -347,6 +460,9 @@ func effectiveCharsets(s *schema.Schema) string {
 }
 
 func checkSchema(c SCase) error {
+	if len(c.Twin) > 0 {
+		return checkRealm(c)
+	}
 	s0, err := gm.Build(c.Dialect, c.S)
 	if err != nil {
 		return fmt.Errorf("harness: %v", err)
